@@ -25,7 +25,11 @@ def absR (x : Rat) : Rat := if x < 0 then -x else x
 
 /-! ### 1. expression energies -/
 
-/-- inner loop of `abc::energy`: the neighbourhood is scanned until the first index above `u` -/
+/-- inner loop of `abc::energy`: the neighbourhood is scanned until the first index above `u`.
+    The source writes `term.bias * u_val * x_v`, evaluated left to right, so the first product already is in the bias
+    type (double) and the two sample values are never multiplied in the sample's integer type; the model (exact
+    rationals) is only faithful to that order — `u_val * x_v` formed first would wrap for int8/16/32 samples.  The
+    harness (C08 `wide` mode) feeds integer samples of every width with values up to 2^20 to pin this down. -/
 def nbhEnergy (u : Nat) (x : Nat → Rat) (nb : List (Nat × Rat)) : Rat :=
   ((nb.takeWhile (fun p => p.1 ≤ u)).map (fun p => p.2 * x u * x p.1)).sum
 
